@@ -21,6 +21,7 @@ from ..util import derive_seed, digest, exc_is_domain
 from ..worlds import pipeline as P
 
 PROPERTY = "C07"
+SCHED_PATH = ("sched",)
 LEVEL = "fault_enumeration"
 QUICK_N = 10**6
 SCENARIO_TIMEOUT = 240
